@@ -214,6 +214,66 @@ Theorem C10_hand_vmstack_roundtrip : forall boc e rest, hand_vmstack_frame boc =
   exists s, hand_vmstack_unframe (e ++ rest) = (Ok boc, s) /\ inp s = rest.
 Proof. exact hand_vmstack_roundtrip. Qed.
 
+(** * 6. liteclient's own framing (liteclient/client.go): the package-private copies of the TL
+    length prefix and alignment, and the frames assembled by hand around every query *)
+
+(* encodeLength is the TL length prefix; the 0xfe form starts exactly at 254 *)
+Theorem C10_lc_encode_length : forall n, lc_encode_length n = bytes_header n.
+Proof. exact lc_encode_length_spec. Qed.
+Theorem C10_lc_encode_length_boundary :
+  lc_encode_length 253 = [253] /\ lc_encode_length 254 = [254; 254; 0; 0] /\
+  lc_encode_length 255 = [254; 255; 0; 0].
+Proof. exact lc_encode_length_boundary. Qed.
+
+(* decodeLength reads every TL length prefix back, whatever follows *)
+Theorem C10_lc_decode_length : forall n rest, n < two24 ->
+  lc_decode_length (bytes_header n ++ rest) = Ok (n, rest).
+Proof. exact lc_decode_length_roundtrip. Qed.
+
+(* Client.Request writes adnl.message.query: id, query id, query as a TL byte string *)
+Theorem C10_lc_request_layout : forall id q, length id = 32%nat ->
+  lc_request_payload id q = le_bytes 4 magic_adnl_query ++ id ++ enc_bytes q.
+Proof. exact lc_request_layout. Qed.
+
+(* ... which is the schema's boxed adnl.Message constructor (premises discharged in C10_gen.v) *)
+Theorem C10_lc_request_is_adnl_query : forall sch d id q,
+  find (fun d => String.eqb "AdnlMessageQuery" (xlbl (go_naming sch) d)) (ctors_of sch "adnl.Message") = Some d ->
+  did d = magic_adnl_query -> dfields d = fields_adnl_query ->
+  hash_ok id -> all_bytes q = true -> N.of_nat (length q) < two24 ->
+  tl_encode (go_naming sch) sch (TBoxed "adnl.Message") (val_adnl_query id q) = Some (lc_request_payload id q).
+Proof. exact lc_request_is_adnl_query. Qed.
+
+(* liteServerRequest: liteServer.query id, the request as a TL byte string *)
+Theorem C10_lc_ls_query_layout : forall q, lc_ls_query q = le_bytes 4 magic_ls_query ++ enc_bytes q.
+Proof. exact lc_ls_query_layout. Qed.
+
+(* processQueryAnswer hands the waiting request exactly the answer bytes of adnl.message.answer *)
+Theorem C10_lc_answer_roundtrip : forall id resp, length id = 32%nat -> N.of_nat (length resp) < two24 ->
+  lc_process_answer (le_bytes 4 magic_adnl_answer ++ id ++ enc_bytes resp) = Ok resp.
+Proof. exact lc_answer_roundtrip. Qed.
+
+(** * 7. Bool is a boxed type: the decoder accepts exactly its two constructor ids *)
+Theorem C10_bool_decoder_exact : forall B bs v,
+  fst (go_unmarshal B GBool bs) = Ok v <->
+  exists w r, split_at 4 bs = Some (w, r) /\
+    ((le_num w = bool_true_id /\ v = VBool true) \/ (le_num w = bool_false_id /\ v = VBool false)).
+Proof. exact go_bool_exact. Qed.
+
+(* a decoder that reads every other word as false (the simplification `tag == boolTrue`) accepts
+   bytes that are the encoding of no Bool: refuted as a design *)
+Definition lenient_bool (bs : bytes) : option bool :=
+  opt (w, _) <- split_at 4 bs; Some (le_num w =? bool_true_id).
+Theorem C10_lenient_bool_refuted :
+  exists bs, lenient_bool bs = Some false /\
+    forall nm sch fuel v, enc nm sch fuel TBool v <> Some bs.
+Proof.
+  exists [0x99; 0x72; 0x75; 0xb5]. split; [reflexivity|].
+  intros nm sch fuel v H. destruct fuel; [discriminate|]. destruct v; try discriminate.
+  cbn [enc] in H. destruct b; vm_compute in H; discriminate.
+Qed.
+
+Print Assumptions C10_lc_request_is_adnl_query.
+Print Assumptions C10_bool_decoder_exact.
 Print Assumptions C10_hand_account_id_layout.
 Print Assumptions C10_hand_block_id_ext_layout.
 Print Assumptions C10_tl_roundtrip.
